@@ -279,6 +279,11 @@ pub fn set_rule(site: u32, s: RuleSpec) {
     r.mode.store(s.mode, Ordering::SeqCst);
 }
 
+/// Number of outermost dispatch brackets entered so far (all threads).
+pub fn dispatches() -> u64 {
+    DISPATCHES.load(Ordering::SeqCst)
+}
+
 pub fn rule_off(site: u32) {
     RULES[site as usize].mode.store(0, Ordering::SeqCst);
 }
